@@ -71,7 +71,7 @@ def observe_mismatch(fx, np, props, op, tx, ty):
         return dict(row, raised=True, err=type(ex).__name__)
 
 
-def observe_shift(fx, np, props, direction, mode, tx, cxs, n, ovf='saturate', scalar=False, hist=None, iop=False):
+def observe_shift(fx, np, props, direction, mode, tx, cxs, n, ovf='saturate', scalar=False, hist=None, iop=False, bystander=False):
     row = {'k': 'shift', 'p': list(props), 'dir': direction, 'mode': mode, 'n': n, 'x': dict(zip('swf', (bool(tx[0]), tx[1], tx[2]))),
            'o': ovf, 'route': direction + '/' + mode, 'carrier': 'scalar' if scalar else 'array'}
     try:
@@ -80,6 +80,23 @@ def observe_shift(fx, np, props, direction, mode, tx, cxs, n, ovf='saturate', sc
             row['route'] = row['route'] + '/hist-' + hist
         else:
             X = mk(fx, np, tx, cxs[0] if scalar else cxs, shifting=mode, overflow=ovf)
+        if bystander:
+            # BYSTANDERS: results of earlier shifts of the same operand (and of ~X, X[...]) are reconfigured for the other shifting mode,
+            # the other overflow mode, and overwritten - nothing of that may reach X or the measured shift
+            row['route'] = row['route'] + '/bystander'
+            others = []
+            for f_ in (lambda: X << 0, lambda: X >> 0, lambda: X << 1, lambda: X >> 1, lambda: ~X, lambda: X[...] if np.ndim(X.val) else X.deepcopy()):
+                try:
+                    others.append(f_())
+                except Exception:
+                    pass
+            for d_ in others:
+                try:
+                    d_.config.shifting = 'expand' if mode != 'expand' else 'trunc'
+                    d_.config.overflow = 'wrap' if ovf == 'saturate' else 'saturate'
+                    d_.config.rounding = 'ceil'
+                except Exception:
+                    pass
         if iop:           # in-place spelling: Z = X; Z <<= n  (X itself stays what it was)
             row['route'] = row['route'] + '/iop'
             Z = X
